@@ -23,7 +23,7 @@ CHECKS = {
              "k-space crop/pad = image crop/pad under the Fourier inverse-pair contract. center_crop / pad_tensor / complex_center_crop arithmetic is regenerated from "
              "direct/data/transforms.py on every run; crop_to_bbox and the F.pad convention are tied by exact correspondence on integer tensors.",
         note=PROOF_NOTE + "Modelled, not verified: torch/numpy slicing and torch.nn.functional.pad (pair order validated by correspondence); Fourier operators only through backward(forward(x)) = x.",
-        technique="Coq proof (lia over regenerated index arithmetic, induction over tensor rank) + exact model/implementation correspondence",
+        technique="Coq proof (lia over regenerated index arithmetic and the regenerated rejection guard, induction over tensor rank) + exact model/implementation correspondence",
         design="§6 C10"),
     "C11": dict(
         text="The per-cell boolean expressions of the three mask splitters (mask & ~acs, clearing of the protected region, input = mask & ~target, | acs; the half splitter's side assignments and region handling), the counts handed to the fill routines and the Cython kernel's loop condition are regenerated on every run. "
@@ -154,10 +154,10 @@ CHECKS = {
     "C14": dict(
         text="Theorem over the reconstruct_volumes state machine (last_filename / curr_volume / slice_counter / volume_size) for every sequence of volumes delivered as non-empty batches of consecutive slices, any names, items and per-slice function: "
              "exactly one output per volume, in order, k-th slice = processed output of the k-th slice; composed with the chunking of the volume batch sampler the result is independent of the batch size. "
-             "The body of the batch loop is regenerated from the source on every run as a statement list (guards, slice assignment into a buffer of volume_size slots, yield) and proved to refine that state machine for every sequence of batches (a raise in one is a raise in the other). "
+             "The body of the batch loop is regenerated from the source on every run as a statement list (guards incl. elif / else, slice assignment into a buffer of volume_size slots, yield); one iteration of it is proved, for every state, file name and batch, to be the same state transformer as one iteration of a reference body, which is proved to refine that state machine for every sequence of batches (a raise in one is a raise in the other). "
              "The state machine is also tied to the code by exact correspondence through the real Engine.predict -> reconstruct_volumes -> _process_output with a marker model (per-slice scaling factors, header crop, world/rank, 0-2 workers).",
         note=PROOF_NOTE + "The statements computing a batch's output are abstracted to a per-slice function (validated by the correspondence). Modelled, not verified: DataLoader ordering with workers, default collate, per-sample action of _process_output (validated by pixel checks), C13 for the batches.",
-        technique="Coq proof (induction over volumes and batches of the bookkeeping state machine) + exact correspondence through the real predict loop",
+        technique="Coq proof (induction over volumes and batches of the bookkeeping state machine; refinement of it by the loop body regenerated from the source, tied by a per-iteration equivalence proved for every state) + exact correspondence through the real predict loop",
         design="§6 C14"),
     "C15": dict(
         text="Checkpointer.save is regenerated on every run as a trace of file-system effects (open-truncate, write, close, os.replace on symbolic paths) and proved crash safe for every prior file-system state, iteration and content: "
